@@ -19,6 +19,12 @@ RM = "OpenVolumeMesh::ResourceManager"
 EXCLUDED_NAMES = {"create_private_property", "internal_create_property", "storage_tracker", "request_property", "create_property", "create_shared_property", "create_persistent_property"}
 
 
+def creating_api(name):
+    """the property-creating API (excluded from the read-only operations by the statement)"""
+    import re
+    return name in EXCLUDED_NAMES or bool(re.match(r"(create|request)_\w*propert", name))
+
+
 def is_iter_class(fb, cls):
     return any(b.startswith("OpenVolumeMesh::BaseIterator<") for b in fb.bases(cls)) or cls.startswith("OpenVolumeMesh::BaseIterator<")
 
@@ -28,7 +34,7 @@ def entries(fb):
     for f in fb.fns.values():
         if not f.has_cfg or not ("/src/OpenVolumeMesh/" in f.file or "/verif/fixtures/canary_c20" in f.file) or not f.cls:
             continue
-        if f.name in EXCLUDED_NAMES:
+        if creating_api(f.name):
             continue
         cls = f.cls
         if fb.derived_from(cls, TK) or cls == RM:
@@ -49,6 +55,8 @@ def run(ck, fb, fbd):
     ck.rule("C20.static", "no function reachable from a const entry point touches a non-const variable of static storage duration (namespace-scope, static member or function-local static)")
     ck.rule("C20.constcast", "no function reachable from a const entry point contains a cast that removes const")
     ck.rule("C20.write", "no function reachable from a const entry point of the mesh writes a data member of the mesh classes through `this` or through a stored mesh pointer; iterators hold the mesh as pointer-to-const")
+    ck.rule("C20.create", "no function reachable from a read-only entry point creates or requests a property: creation registers the storage in the mesh's (mutable) tracker, which is a write to shared state - the statement excludes property creation from the read-only operations, so a traversal or query must not do it behind the caller's back")
+    creating = []
     E = entries(fb)
     pred = {f.id: None for f in E}
     dq = deque(f.id for f in E)
@@ -60,7 +68,9 @@ def run(ck, fb, fbd):
                 continue
             if not ("/src/OpenVolumeMesh/" in tgt.file or "/verif/fixtures/" in tgt.file):
                 continue
-            if tgt.name in EXCLUDED_NAMES:
+            if creating_api(tgt.name):
+                if tgt.name != "storage_tracker":
+                    creating.append((f, n, tgt, fid))
                 continue
             if tgt.id not in pred:
                 pred[tgt.id] = (fid, f.loc(n))
@@ -80,6 +90,18 @@ def run(ck, fb, fbd):
             fid = p
         return out
 
+    seen_c = set()
+    for f, n, tgt, fid in creating:
+        key = "C20.create:%s:%s" % (f.pq, tgt.name)
+        if key in seen_c:
+            continue
+        seen_c.add(key)
+        if "/verif/fixtures/" in f.file:
+            continue
+        ck.violate("C20.create", f.loc(n), "%s (reachable from a read-only entry point) calls %s, which registers a new property storage in the mesh" % (f.pq.split("OpenVolumeMesh::")[-1][:70], tgt.name), key, detail={"chain": chain(fid)})
+    ck.analysed["property_creating_calls_reached"] = len(seen_c)
+    if not seen_c:
+        ck.ok("C20.create", "const entry points", "no read-only entry point reaches a property-creating call (%d functions searched)" % len(pred))
     mesh_classes = [c for c in fb.records if c == TK or c == RM or fb.derived_from(c, TK)]
     # the property storages belong to the mesh state as well: a const read of a property must not write the storage
     # object (e.g. un-sharing a copy-on-write buffer) - the handle classes reach it through a shared_ptr, which does not
